@@ -161,6 +161,91 @@ Fixpoint pure_notrap_expr (e : expr) : bool :=
   | _ => false
   end.
 
+(* ids with a slot in each open scope of the activation after t has executed *)
+Definition decl1 (Ds : list (list Z)) (t : stmt) : list (list Z) :=
+  match t with
+  | SMake _ _ (Some x) _ =>
+      match Ds with
+      | D :: r => (if memz x D then D else x :: D) :: r
+      | [] => []
+      end
+  | _ => Ds
+  end.
+
+(* parameter ids, in the order bind_params leaves the slots *)
+Fixpoint param_ids (ls : Z) (ps : list name) (k : Z) (acc : list Z) : list Z :=
+  match ps with
+  | [] => acc
+  | _ :: r => param_ids ls r (k + 1) ((ls + k) :: acc)
+  end.
+
+
+Definition is_fun (t : stmt) : bool := match t with SFun _ _ _ _ _ _ _ => true | _ => false end.
+
+(* ---------- pure, trap-free callees (round 4) ----------
+   The analysis prunes a store whose right-hand side calls a user function when the callee's
+   transitive class is PureNoTrap and it has no transitive capture write (opt.rs
+   stmt_effective_class, summary.rs).  `pf_stmts P pt Ds body` is the verified image of that
+   class for a callee body run under plan P: every expression is total and pure (pfe: pure_total
+   plus calls of functions of the table pt), conditions are boolean/null literals trees,
+   assignments go to locals of the running activation (tracked in Ds as in LiveCheck), there
+   is no index assignment, mutation, output or nested definition.  Nothing is required about
+   termination: a callee that loops or recurses for ever is in the class. *)
+Fixpoint pfe (pt : list Z) (e : expr) {struct e} : bool :=
+  match e with
+  | EVar _ _ => true
+  | EInterp _ => true
+  | EArr es => forallb (pfe pt) es
+  | ECall (EVar f _) args tgt =>
+      match global_builtin f with
+      | Some GTypeOf | Some GToString => match args with [a] => pfe pt a | _ => false end
+      | Some _ => false
+      | None => match tgt with
+                | Some t => memz t pt && forallb (pfe pt) args
+                | None => false
+                end
+      end
+  | _ => match lit_ty e with Some _ => true | None => false end
+  end.
+
+Definition cond_ok (e : expr) : bool :=
+  match lit_ty e with Some TBool | Some TNull => true | _ => false end.
+
+Definition pf_stmts_with (P : plan) (pfs : list (list Z) -> stmt -> bool)
+  : list (list Z) -> list stmt -> bool :=
+  fix go (Ds : list (list Z)) (ts : list stmt) {struct ts} : bool :=
+  match ts with
+  | [] => true
+  | t :: r =>
+      if is_fun t then false                                  (* would be hoisted *)
+      else if in_plan_stmt P (stmt_sid t) then go Ds r
+      else pfs Ds t && go (decl1 Ds t) r
+  end.
+
+Fixpoint pf_stmt (P : plan) (pt : list Z) (Ds : list (list Z)) (t : stmt) {struct t} : bool :=
+  let blk := pf_stmts_with P (pf_stmt P pt) in
+  match t with
+  | SMake _ _ (Some _) e => pfe pt e && negb (Nat.eqb (length Ds) 0)
+  | SSet _ _ (Some x) e => pfe pt e && memz x (concat Ds)
+  | SIf _ c th el =>
+      cond_ok c && blk ([] :: Ds) th && match el with Some b => blk ([] :: Ds) b | None => true end
+  | SLoop _ c body => cond_ok c && blk ([] :: Ds) body
+  | SBlock _ body => blk ([] :: Ds) body
+  | SRet _ None => true
+  | SRet _ (Some e) => pfe pt e
+  | SBreak _ | SNext _ => true
+  | SExpr _ e => pfe pt e
+  | _ => false
+  end.
+Definition pf_stmts (P : plan) (pt : list Z) := pf_stmts_with P (pf_stmt P pt).
+
+(* the body of function f, if f is in the table *)
+Definition pf_fun (P : plan) (pt : list Z) (fid : option Z) (ls : Z) (ps : list name) (body : list stmt) : bool :=
+  match fid with
+  | Some f => if memz f pt then pf_stmts P pt [[]; param_ids ls ps 0 []] body else true
+  | None => true
+  end.
+
 (* ---------- the configuration a plan is checked against ---------- *)
 Record pcfg := {
   c_p1 : plan;          (* the plan under test *)
@@ -223,7 +308,6 @@ Definition pruned_ok (c : pcfg) (t : stmt) : bool :=
   | _ => false
   end.
 
-Definition is_fun (t : stmt) : bool := match t with SFun _ _ _ _ _ _ _ => true | _ => false end.
 
 Definition item_ok_with (sok : stmt -> bool) (c : pcfg) (live : bool) (x : stmt) : bool :=
   (if is_fun x then sok x else true)
@@ -297,6 +381,17 @@ Definition tol_ending (e : ending) : bool :=
   | _ => false
   end.
 
+(* round 4: when stores whose right-hand side calls a user function are dropped, four more
+   endings of the less-pruned run are not compared: the panic sites the resolver rules out
+   (WfStatic.wf_static: argument count, parameter range, stray loop control; WfScoped: the
+   callee is registered) *)
+Definition xsite_ending (e : ending) : bool :=
+  match e with
+  | Panicked PFuncMissing | Panicked PArgCount | Panicked PParamRange | Panicked PBreakEscapes => true
+  | _ => false
+  end.
+Definition tol_ending_x (calls : bool) (e : ending) : bool := tol_ending e || (calls && xsite_ending e).
+
 (* ---------- collecting facts for the classifier ---------- *)
 Definition seg_vars (sg : seg) : list Z := match sg with SegLit _ => [] | SegVar _ l => oid l end.
 
@@ -361,7 +456,7 @@ Definition writer_of (t : stmt) : option (Z * expr) :=
   end.
 
 (* parameter ids of every function *)
-Definition param_ids (prog : list stmt) : list Z :=
+Definition all_param_ids (prog : list stmt) : list Z :=
   flat_map (fun t => match t with
                      | SFun _ _ ps _ _ ls _ => map (fun k => ls + Z.of_nat k) (seq 0 (length ps))
                      | _ => []
@@ -372,7 +467,7 @@ Definition param_ids (prog : list stmt) : list Z :=
 Definition dead_ids (prog : list stmt) (ss : list Z) : list Z :=
   let sts := all_stmts_block prog in
   let reads := read_ids prog in
-  let params := param_ids prog in
+  let params := all_param_ids prog in
   let bad := flat_map (fun t => match writer_of t with
                                 | Some (d, e) =>
                                     if in_plan_stmt (Some (ss, [])) (stmt_sid t) && pure_total e
@@ -447,10 +542,29 @@ Definition live_fns (prog : list stmt) : list Z :=
   let tbl := fn_table prog in
   close_fns (S (length tbl)) tbl (nodup Z.eq_dec (live_calls_block true prog)).
 
+(* the largest table closed under pf_fun: start from every function, drop the ones that fail *)
+Definition fun_defs (prog : list stmt) : list (Z * (Z * (list name * list stmt))) :=
+  flat_map (fun t => match t with
+                     | SFun _ _ ps body (Some f) ls _ => [(f, (ls, (ps, body)))]
+                     | _ => []
+                     end) (all_stmts_block prog).
+Fixpoint pt_iter (n : nat) (P : plan) (fd : list (Z * (Z * (list name * list stmt)))) (pt : list Z) : list Z :=
+  match n with
+  | O => pt
+  | S k =>
+      let pt' := filter (fun f => forallb (fun d => negb (fst d =? f) ||
+                                                   pf_stmts P pt [[]; param_ids (fst (snd d)) (fst (snd (snd d))) 0 []]
+                                                            (snd (snd (snd d)))) fd) pt in
+      if Nat.eqb (length pt') (length pt) then pt else pt_iter k P fd pt'
+  end.
+Definition mk_pt (P : plan) (prog : list stmt) : list Z :=
+  let fd := fun_defs prog in
+  pt_iter (S (length fd)) P fd (nodup Z.eq_dec (map fst fd)).
+
 Definition dead_ids_live (prog : list stmt) (ss : list Z) : list Z :=
   let sts := lstmts_block (live_fns prog) true prog in
   let reads := flat_map (fun t => flat_map expr_vars (stmt_exprs t)) sts in
-  let params := param_ids prog in
+  let params := all_param_ids prog in
   let bad := flat_map (fun t => match writer_of t with
                                 | Some (d, e) =>
                                     if in_plan_stmt (Some (ss, [])) (stmt_sid t) && pure_total e
@@ -560,7 +674,7 @@ Definition plan_ok (prog : list stmt) (ss fs : list Z) : verdict :=
 Definition dead_ids2 (prog : list stmt) : list Z :=
   let sts := all_stmts_block prog in
   let reads := read_ids prog in
-  let params := param_ids prog in
+  let params := all_param_ids prog in
   let bad := flat_map (fun t => match writer_of t with
                                 | Some (d, e) => if pure_total e then [] else [d]
                                 | None => []
